@@ -172,6 +172,8 @@ func getReporter returns (r)
   modifies ghost(bufSink, bufSticky, tnodes, tdepth, tmax, tmapOf, jlen, tvLen, tv, tseg, tvSet)
   ensures @reporter RepInv(r) && fresh(RepBuf(r)) && RepBookBelow(r, alloc())
   ensures @sink [C17] bufSink == store(old(bufSink), RepBuf(r), payload(config.Output)) && bufSticky == store(old(bufSticky), RepBuf(r), false)
+  // the display mode follows the flags: a chosen element always selects the single-element balance (C03), otherwise --collapse
+  ensures @mode [C03] (len(config.SingleElement) > 0 ==> typeis(r, "*balance.balanceSingleReporter")) && (len(config.SingleElement) == 0 && config.Collapse ==> typeis(r, "*balance.balanceReporterCollapsed")) && (len(config.SingleElement) == 0 && !config.Collapse ==> typeis(r, "*balance.balanceReporter"))
 
 // the callback Balance hands to WithResolvedDatabase
 func Balance$1 returns (err)
